@@ -365,6 +365,18 @@ func (rw *rewriter) selectors(f *ast.File) {
 			rw.st.cpus++
 			rw.useVrt = true
 			return false
+		case "runtime.GOMAXPROCS":
+			// only the query form GOMAXPROCS(0): the pool width becomes the harness's decision
+			if len(c.Args) == 1 {
+				if bl, ok := c.Args[0].(*ast.BasicLit); ok && bl.Value == "0" {
+					inner := &ast.CallExpr{Fun: sel("runtime", "GOMAXPROCS"), Args: []ast.Expr{&ast.BasicLit{Kind: token.INT, Value: "0"}}}
+					c.Fun = sel("vrt", "NumCPU")
+					c.Args = []ast.Expr{inner}
+					rw.st.cpus++
+					rw.useVrt = true
+					return false
+				}
+			}
 		case "time.Now":
 			c.Fun = sel("vrt", "Now")
 			rw.st.clocks++
